@@ -26,7 +26,13 @@ RULE = ("DateTimes = boundary grid (years 1000/9999, leap days, midnight/noon/12
         "second at the day boundaries, 400-year boundaries, year ends of every position in the 4/100/400-year cycles, leap days and Feb 28/Mar 1 of "
         "centurial and ordinary years, month ends, the first and last representable seconds, the epoch, powers of two and ten of the count, seeded "
         "random instants; each instant in UTC and, every ninth, the same instant in a fixed offset or named zone; modelled: X/x are inside the Coq "
-        "model, local_time per backend), session (ONE case = a whole process history run in order in one process: set_locale with shipped names in "
+        "model, local_time per backend), doy-tokens / roundtrip-doy / parse-doy (the day-of-year tokens: years at every position of the 4/100/400-year cycles — 1000 1001 1004 1100 1200 "
+        "1600 1900 1996 1999 2000 2020 2023 2024 2025 2100 2400 9996 9999 plus seeded leap and arbitrary years — on days 1, 59, 60, 61, 365, 366 and every month end (thorough: month "
+        "starts too), at the day boundaries 23:59:59.999999 / 00:00:00 in fixed offsets up to +-23:59 and named zones; DDDD DDD DDDo rendered against tm_yday; ten layouts — full date + "
+        "time + offset with DDDD or DDD first, last or after the offset (Formatter.parse AND pendulum.from_format must return dt), 'YYYY-DDDD', 'YYYY[T]DDD', 'YYYYDDDD' without separator, "
+        "'DDD YY', and DDDD / DDD alone with `now` inside that year — all ten on the last day of every year; direct texts of day numbers 0, 1, 59, 60, 61, 365, 366, 367, 999 in every "
+        "such year: an existing day must give the stdlib date, a day the year does not have must raise a ValueError; inside the Coq model: fmt_roundtrip / fmt_parse with the ordinal-date "
+        "step of the backend), session (ONE case = a whole process history run in order in one process: set_locale with shipped names in "
         "several spellings and with names that are REJECTED, interleaved with format()/Formatter.parse/pendulum.from_format calls WITHOUT a locale "
         "argument, with an explicit one and with an empty one, the same format string — carrying localized month/day tokens — used under different "
         "defaults; every output is compared with the Gallina state machine Model/FormatterSession.v and checked by the round-trip oracle under the "
@@ -356,6 +362,11 @@ def cases(tier, seed):
     out += ts_cases
     for c in ts_cases[:: (7 if big else 23)]:
         out.append({"stream": "nonmatching", "fn": "mismatch", "args": c["args"] + [rnd.randrange(3), rnd.randrange(1000)]})
+    # 8b. the day-of-year tokens DDDD / DDD (/ DDDo, format side) on the structurally special days of leap and common years
+    doy = doy_cases(rnd, big, seed)
+    out += doy
+    for c in [x for x in doy if x["fn"] == "roundtrip" and x["args"][4] == "doy"][:: (5 if big else 17)]:
+        out.append({"stream": "nonmatching", "fn": "mismatch", "args": c["args"] + [rnd.randrange(3), rnd.randrange(1000)]})
     # 9. whole process histories: the default locale changed (or a change REJECTED) between calls that rely on it
     out += session_cases(rnd, big, seed, now)
     return _mark_week_dependent(out)
@@ -538,6 +549,90 @@ def session_cases(rnd, big, seed, now):
                                                                   ["parse", None, "February 29 2020", "MMMM D YYYY"], ["parse", "en", "February 29 2020", "MMMM D YYYY"],
                                                                   ["parse", None, "février 29 2020", "MMMM D YYYY"], ["set", "tlh"], ["parse", None, "février 29 2020", "MMMM D YYYY"],
                                                                   ["get"], ["parse", "tlh", "2020", "YYYY"], ["fmt", "tlh", mk_dt("fixed", 0, 2020, 2, 29, 0, 0, 0, 0), _T("YYYY")]], list(now)]})
+    return out
+
+
+# ----------------------------------------------------------------------------- day of the year
+# years at every position of the 4 / 100 / 400-year cycles (leap: 1004 1200 1600 1996 2000 2020 2024 2400 9996; centurial common: 1000 1100 1900 2100;
+# ordinary common: 1001 1999 2023 2025 9999), and the range ends of the property (1000, 9999)
+DOY_YEARS = [1000, 1001, 1004, 1100, 1200, 1600, 1900, 1996, 1999, 2000, 2020, 2023, 2024, 2025, 2100, 2400, 9996, 9999]
+DOY_OFFSETS = [0, 19800, -12600, 3600, -3600, 50400, -43200, 20700, -34200, 86340, -86340]
+DOY_ZONES = ["UTC", "Europe/Paris", "America/New_York", "Asia/Kolkata", "Pacific/Kiritimati", "Pacific/Marquesas"]
+DOY_TIMES = [(23, 59, 59, 999999), (0, 0, 0, 0), (12, 34, 56, 1), (0, 0, 0, 1), (23, 59, 59, 0)]
+_DOY_TAIL = _T(" ", "HH", ":", "mm", ":", "ss", ".", "SSSSSS", " ")
+# (parts, shape, needs): "doy" = full date + time + fraction + offset (Formatter.parse and pendulum.from_format must both give dt back);
+# "doy-date" = a full date (year + day of year), time fields 0; "doy-only" = the day of the year alone, the year comes from `now`
+DOY_LAYOUTS = [
+    (_T("YYYY", " ", "DDDD") + _DOY_TAIL + [["tok", "Z"]], "doy", None),
+    (_T("DDD", "/", "YYYY") + _DOY_TAIL + [["tok", "ZZ"]], "doy", None),
+    ([["tok", "Z"], ["lit", " "]] + _T("HH", ":", "mm", ":", "ss", ".", "SSSSSS", " ", "DDDD", ".", "YYYY"), "doy", None),
+    (_T("YYYY", "-", "DDDD"), "doy-date", None),
+    (_T("YYYY") + [["br", "T"]] + _T("DDD"), "doy-date", None),
+    (_T("YYYY") + [["tok", "DDDD"]], "doy-date", None),                    # 'YYYYDDDD': no separator, the widths alone split the digits
+    (_T("DDD", " ", "YY"), "doy-date", "yy"),                                # two-digit years: only inside the window 1969..2068
+    (_T("DDDD"), "doy-only", None),
+    (_T("DDD"), "doy-only", None),
+    (_T("DDDD") + _DOY_TAIL + [["tok", "Z"]], "doy-only", None),
+]
+
+
+def special_ydays(y, starts=True):
+    """days of the year where a day-of-year <-> (month, day) conversion changes regime: the first day, the days around the end of February
+    (59, 60, 61: Feb 28 / Feb 29 or Mar 1 / Mar 1 or Mar 2), the last two days (365 and, in a leap year, 366), every month end and (starts) month start"""
+    n = 366 if calendar.isleap(y) else 365
+    days = {1, 59, 60, 61, 365, n}
+    for mo in range(1, 13):
+        last = _dt.date(y, mo, calendar.monthrange(y, mo)[1]).timetuple().tm_yday
+        days.add(last)
+        if starts and last + 1 <= n:
+            days.add(last + 1)
+    return sorted(days)
+
+
+def doy_cases(rnd, big, seed):
+    """DDDD / DDD (parse side: Formatter._check_parsed resolves them through pendulum.parse('YYYY-DDD'), i.e. through the ISO 8601 parser of the active backend)
+    and DDDo (format side only: from_format has no pattern for it) on the special days of leap and common years across the 4/100/400 cycle."""
+    out = []
+    years = list(DOY_YEARS) + [rnd.randrange(250, 2500) * 4 for _ in range(6 if big else 2)] + [rnd.randrange(1000, 10000) for _ in range(6 if big else 2)]
+    k = seed
+    for y in years:
+        for yd in special_ydays(y, starts=big):
+            k += 1
+            dd = _dt.date(y, 1, 1) + _dt.timedelta(days=yd - 1)
+            H, M, S, us = DOY_TIMES[k % len(DOY_TIMES)]
+            if k % 4 == 3:
+                s = mk_dt("zone", DOY_ZONES[(k // 4) % len(DOY_ZONES)], y, dd.month, dd.day, H, M, S, us)
+            else:
+                s = mk_dt("fixed", DOY_OFFSETS[k % len(DOY_OFFSETS)], y, dd.month, dd.day, H, M, S, us)
+            if s is None or s["off"] % 60:
+                s = mk_dt("fixed", 0, y, dd.month, dd.day, H, M, S, us)
+            # format side: the three day-of-year tokens against the standard library (tm_yday), locale en
+            toks = ["DDDD", "DDD", "DDDo", "YYYY"]
+            out.append({"stream": "doy-tokens", "fn": "format", "args": ["en", s, [["tok", t] if i % 2 == 0 else ["lit", SEP] for t in toks for i in (0, 1)][:-1]]})
+            # round trips: every layout on the last two days of the year, on the first and around the end of February; two rotating layouts elsewhere
+            n = 366 if calendar.isleap(y) else 365
+            hot = yd in (1, 59, 60, 61, 365, 366) or yd == n
+            if yd == n or (hot and big):
+                sel = list(range(len(DOY_LAYOUTS)))
+            elif yd in (1, 60, 365):
+                sel = sorted({k % 3, 3, 7, 3 + k % (len(DOY_LAYOUTS) - 3)})
+            else:
+                sel = [k % 3, 3 + k % (len(DOY_LAYOUTS) - 3)]
+            for j in sel:
+                parts, shape, needs = DOY_LAYOUTS[j]
+                if needs == "yy" and not (1969 <= y <= 2068):
+                    continue
+                now = [y, 1 + (k + j) % 12, 1 + (k * 3 + j) % 28] if shape == "doy-only" else [2021 + (k % 4), 3, 4]     # `now` in a leap / common year
+                out.append({"stream": "roundtrip-doy", "fn": "roundtrip", "args": ["en", s, [list(p) for p in parts], now, shape]})
+        # direct inputs: the text of a day number (existing or not) in this year — 0, 1, 59, 60, 61, 365, 366, 367, 999
+        for yd in (0, 1, 59, 60, 61, 365, 366, 367, 999):
+            k += 1
+            lay = [("%04d-%03d", "YYYY-DDDD"), ("%04d %d", "YYYY DDD"), (None, "DDDD"), ("%04d%03d", "YYYYDDDD")]
+            for j in (range(len(lay)) if (big or yd >= 365) else [k % len(lay)]):
+                tf, fmt = lay[j]
+                text = ("%03d" % yd) if tf is None else tf % (y, yd)
+                now = [y, 1 + k % 12, 1 + k % 28] if tf is None else [2021 + (k % 4), 3, 4]
+                out.append({"stream": "parse-doy", "fn": "parse_doy", "args": ["en", text, fmt, now, [y, yd]]})
     return out
 
 
@@ -743,7 +838,7 @@ def impl_run(cases):
                     out.append([3, text, type(ex).__name__])
                     continue
                 ff = None
-                if fn == "roundtrip" and a[4] in ("full", "full12", "fullz", "names", "ts"):
+                if fn == "roundtrip" and a[4] in ("full", "full12", "fullz", "names", "ts", "doy", "doy-date"):
                     # the public entry point (its own `now` is irrelevant when the format carries a full date)
                     try:
                         g = pendulum.from_format(text, fmt, locale=loc)
@@ -756,6 +851,14 @@ def impl_run(cases):
                 loc, text, fmt, now = a
                 r = F.parse(text, fmt, pendulum.datetime(*now), loc)
                 out.append([0, r["year"], r["month"], r["day"], r["hour"], r["minute"], r["second"], r["microsecond"]] + _tz_repr(r["tz"]))
+            elif fn == "parse_doy":
+                loc, text, fmt, now = a[:4]
+                try:
+                    r = F.parse(text, fmt, pendulum.datetime(*now), loc)
+                    out.append([0, r["year"], r["month"], r["day"], r["hour"], r["minute"], r["second"], r["microsecond"]] + _tz_repr(r["tz"]))
+                except Exception as ex:  # noqa
+                    # the class, and whether a caller catching ValueError ("the string does not match") sees it
+                    out.append([1, type(ex).__name__, 1 if isinstance(ex, ValueError) else 0])
             elif fn == "session":
                 out.append([0, _session(pendulum, F, a[0], a[1])])
             else:
@@ -802,8 +905,8 @@ def model_calls(c, backend):
         return [("fmt_roundtrip", args + enc(loc) + enc_dt(s) + enc(fmt_of(parts)))]
     if fn == "mismatch":
         return None        # the corrupted string depends on the rendered text; covered by the oracle and by parse-misc
-    if fn == "parse":
-        loc, text, fmt, now = a
+    if fn in ("parse", "parse_doy"):
+        loc, text, fmt, now = a[:4]
         zs = zones_in(text)
         args = [rs] + list(now) + [len(zs)]
         for z in zs:
@@ -884,6 +987,12 @@ def model_result(c, backend, outs):
             return [0] + _validated(o[1:])
         if o[0] == 1:
             return [1, EXN_NAME.get(o[1], str(o[1]))]
+        return [o[0]]
+    if fn == "parse_doy":
+        if o[0] == 0:
+            return [0] + _validated(o[1:])
+        if o[0] == 1:
+            return [1, EXN_NAME.get(o[1], str(o[1])), 1 if o[1] in (EXN["ValueError"], EXN["ParserError"]) else 0]       # ParserError is a ValueError
         return [o[0]]
     if fn == "session":
         res = []
@@ -1163,13 +1272,28 @@ def oracle(c, backend, r):
         if got != exp:
             return f"parse(dt.format({fmt!r}) = {r[1]!r}, locale={loc}, now={now}) = {got}, expected {exp} (dt={s['f']} off={s['off']})"
         ff = r[-1]
-        if ff is not None and shape in ("full", "full12"):
+        if ff is not None and shape in ("full", "full12", "doy"):
             if ff != list(s["f"]) + [s["off"]]:
                 return f"from_format({r[1]!r}, {fmt!r}) = {ff}, expected {list(s['f']) + [s['off']]}"
-        if ff is not None and shape == "names":
+        if ff is not None and shape in ("names", "doy-date"):
             if ff[:3] != exp[:3]:
                 return f"from_format({r[1]!r}, {fmt!r}, locale={loc}) date = {ff[:3]}, expected {exp[:3]}"
         return None
+    if fn == "parse_doy":
+        loc, text, fmt, now, (y, yd) = a
+        n = 366 if calendar.isleap(y) else 365
+        if 1 <= yd <= n:
+            dd = _dt.date(y, 1, 1) + _dt.timedelta(days=yd - 1)
+            exp = [y, dd.month, dd.day, 0, 0, 0, 0, 0]
+            if r[0] != 0:
+                return f"parse({text!r}, {fmt!r}, now={now}) raised {r[1]}: day {yd} of the year {y} is {dd.isoformat()} ({n} days in that year)"
+            if r[1:] != exp:
+                return f"parse({text!r}, {fmt!r}, now={now}) = {r[1:]}, day {yd} of the year {y} is {dd.isoformat()}: expected {exp}"
+            return None
+        # the year has no such day: a string that does not match the format raises ValueError
+        if r[0] == 1 and len(r) > 2 and r[2] == 1:
+            return None
+        return f"parse({text!r}, {fmt!r}, now={now}): the year {y} has {n} days, day {yd} does not exist; expected ValueError, got {r}"
     if fn == "mismatch":
         if r[0] == 3 and r[2] == "ValueError":
             return None
@@ -1259,7 +1383,10 @@ LEVEL_TEXT = ("Machine-checked Coq theorems about an executable model of Formatt
               "in locale en: atom / w3c to the second, rfc1123 / rfc2822 / rss for every DateTime, rfc822 / rfc1036 exactly inside the two-digit-year window 1969..2068 "
               "(outside it refuted with the value that comes back), cookie / rfc850 rejected on every text (token zz is not supported by from_format). Fields absent from the format "
               "are filled from `now` (from_format_*_fills_* theorems), a non-matching string raises ValueError (from_format_mismatch_raises). The day-of-year step (DDDD/DDD through "
-              "pendulum.parse('YYYY-DDD')) equals the calendar in both parser backends, so the model of from_format is backend-independent (from_format_backend_independent). "
+              "pendulum.parse('YYYY-DDD')) equals the calendar in both parser backends, so the model of from_format is backend-independent (from_format_backend_independent); it inverts the "
+              "rendered day of the year for every valid date of every year — month ends, day 365 and day 366 of leap years included — and refuses exactly the days the year does not have "
+              "(from_format_day_of_year_step_inverts_format, _rejects_missing_day, from_format_day_366, from_format_inverts_year_and_day_of_year, from_format_day_of_year_fills_year_from_now, "
+              "from_format_rejects_missing_day_of_year), and the compiled step is the translated Parser::ordinal_to_ymd (model_is_code_rs_day_of_year_step). "
               "Timestamp tokens X/x: rendered count read back, local_time of either backend = the calendar for every second of the years 1..9999, hence from_format inverts format for X "
               "and — at or after the epoch or on whole seconds — for x; before the epoch x is refuted with its exact wrong value (finding x-negative-fraction); the whole path computed in "
               "the kernel on 31 structurally special instants x 2 tokens x 2 backends. A state machine for the process-wide default locale (failed_set_keeps_configuration, "
@@ -1272,7 +1399,8 @@ LEVEL_NOTE = ("Trusted: Coq kernel+VM, the generators, the hand-written control 
               "zone names), month names of ja/ko(/zh) and every format with the ordinal day token Do — where the model and the implementation agree that from_format FAILS: AttributeError in "
               "the 14 locales without a custom ordinal table (finding do-token-no-ordinal-table) and ValueError for it on the 8th/11th (finding do-token-it-many-unmatched); "
               "the bracket / backslash escape findings. Inside the Coq model (dispatch entries compared with the implementation): X/x of from_format with local_time per backend "
-              "(fmt_roundtrip / fmt_parse), whole histories of set_locale / format / parse (fmt_session). Oracle only: the corrupted strings of the nonmatching stream, "
+              "(fmt_roundtrip / fmt_parse), the day-of-year streams roundtrip-doy / parse-doy (same entries; Proofs/C08Doy.v ties doy_to_md_rs to Gen/RustParsingDatesGen.v), "
+              "whole histories of set_locale / format / parse (fmt_session). Oracle only: the corrupted strings of the nonmatching stream, "
               "pendulum.from_format's own result inside round trips and sessions (its parts come from the modelled Formatter.parse).")
 TECHNIQUE = ("Coq proof (induction on digit lists, lia, vm_compute on generated tables, regex shape invariance + one kernel computation per text shape and per locale table entry) "
              "over translated tables + differential correspondence + stdlib oracle")
@@ -1312,3 +1440,20 @@ TRUSTED = list(TRUSTED) + [
 LEVEL_NOTE = LEVEL_NOTE + (" Model = code (parse side): coq/Gen/FormatterParseMethods.v is translated on every run and Proofs/FormatterParseMethodsFacts.v proves get_parsed_value (whole elif chain: YY pivot, "
                            "hh > 12, Z / ZZ offset text, z, X / x), get_parsed_locale_value (except a / A), get_parsed_values and parse's statement list equal to it (self-tested by 20 mutations: offset sign, "
                            "pivot 68 / 69, elif order, wrong key, missing re.escape ...). _check_parsed (incl. the meridiem arithmetic), _replace_tokens, the regex engine and the tokenisation stay hand + pinned.")
+
+
+# _check_parsed and the a / A branch are translated too (supersedes the "still hand-written" remarks about them in the two entries above)
+TRUSTED = list(TRUSTED) + [
+    "tools/vlib/gens/g73_formatter_parse.py class CheckTr + coq/Model/FormatterParsePrims.v (Formatter._check_parsed translated WHOLE on every run; reading rules in the class docstring: the dict "
+    "`validated` = eight variables, parsed[k] = the option field of the record, `x is None` tests = matches, `if x is None: x = ..` = a match expression, the for loop over literals unrolled, "
+    "`a or b` on (optional) ints = or_else / or_z, the 4-tuple and `t >= (13, 0, 0, 0)` = tuple_ge, parsed[\"meridiem\"] == \"pm\" = the boolean of the record; named primitives: mk_date "
+    "(pendulum.datetime), jan1 / jan1_of_now (start_of(\"year\")), quarter_loop (the while loop, three additions deep; running out: outside the fragment), parse_ordinal "
+    "(pendulum.parse(f\"{year}-{doy:>03d}\") through the ISO ordinal parser model of the backend), week_eve / next_weekday (start_of(\"week\").subtract(days=1) / next(dow), range checks at next: "
+    "the model's reading, off for the first days of year 1), ts_has_point / ts_frac_us / ts_local_time (str() of the timestamp float and helpers.local_time of the backend); and the a / A branch of "
+    "_get_parsed_locale_value: need_strs, py_lower (ASCII), lower_all, index_of, nth_str): check_parsed of coq/Model/FormatterParse.v and the a / A branch of get_parsed_locale_value are PROVED "
+    "equal to the translation for every parsed record, now, backend flag, locale, token and text: model_is_code_check_parsed, model_is_code_parse_meridiem (closed under the global context); "
+    "model_is_code_from_format_parse now ends in the translated _check_parsed",
+]
+LEVEL_NOTE = LEVEL_NOTE + (" _check_parsed (timestamp-first path, quarter, defaults from now, day of year, day of week, meridiem %= 12 / += 12 / tuple test, zero defaults) and the a / A branch are now "
+                           "translated and proved equal to the model as well (self-tested by 29 mutations incl. 'A pm adding 12 to 12'; one equivalent mutant: dropping the explicit membership test before "
+                           "list.index, which raises the same ValueError). Remaining hand + pinned on the parse side: _replace_tokens, the regex engine, the tokenisation, re.escape, match_translation, ts_of_text.")
